@@ -36,6 +36,7 @@ def search_segments(job):
     cases = [{"kind": "synthetic", "size": 5000, "seed": 1, "segments": 3, "messages": 4}, {"kind": "synthetic", "size": 300, "seed": 2, "segments": 10}]
     cases += [{"kind": "merge", "base": i % 2, "seed": 100 + i} for i in range(8)]
     cases += [{"kind": "synthetic", "size": 700, "seed": 6, "segments": 6, "cuts": c} for c in ("empty-lead", "empty-trail", "empty-mid", "empty-seg", "many")]
+    cases += [{"kind": "synthetic", "size": 50, "seed": 9 + hl, "segments": 2, "header_len": hl} for hl in (127, 128, 129, 16383, 16384, 16385)]
     for case in cases:
         r = c05_iwa.run_case(case)
         if r and not r.get("ok"):
